@@ -198,3 +198,31 @@ Definition init_sys (g : graph) (roots : list tid) : sys := {|
 
 Definition reachable (fx1 watch : bool) (g : graph) (roots : list tid) (s : sys) : Prop :=
   exists ls, run_labels fx1 watch (init_sys g roots) ls = Some s.
+
+(* ---- enabledness ---- *)
+
+(* the internal labels worth trying in a state: everything except the environment's inputs (LSignal, LChange) and the
+   choice of failing (spawn failure, RFailed), which are listed separately *)
+Definition candidate_labels (s : sys) : list label :=
+  let ts := map fst (map_to_list (actors s)) in
+  (ts ≫= fun t => [LDeliver t true; LInval t true; LTermActor t; LBuildDone t RCompleted; LBuildDone t RCancelled])
+  ++ [LRoot; LRootIdle; LRootSignal; LJoin].
+
+Definition enabled (fx1 watch : bool) (s : sys) : list label :=
+  filter (fun l => bool_decide (is_Some (exec fx1 watch s l))) (candidate_labels s).
+
+(* nothing can happen any more unless the environment acts (signal, file change) or a script fails *)
+Definition quiescent (fx1 watch : bool) (s : sys) : bool :=
+  match enabled fx1 watch s with [] => true | _ => false end.
+
+(* helpers for the explorer (runner/drv_sys.ml) *)
+Definition graph_of_list (l : list (tid * (akind * list tid))) : graph := list_to_map l.
+
+Definition strip_hist (s : sys) : sys :=
+  {| actors := actors s; inbox := inbox s; rootq := rootq s; slot := slot s; termq := termq s; ph := ph s;
+     r_unavB := r_unavB s; r_unavS := r_unavS s; r_svc := r_svc s; sigq := sigq s; hist := [] |}.
+
+Definition has_failure (s : sys) : bool :=
+  existsb (fun o => match o with ObFail _ => true | _ => false end) (hist s).
+
+Definition is_running (s : sys) : bool := bool_decide (ph s = PRun).
